@@ -25,11 +25,32 @@ def handleC19 (j : Json) : R Json := do
       pure (some es)
   let tables ← (← arrF j "tables").toList.mapM decTable
   let inits ← (← arrF j "init").toList.mapM optNat
+  -- an op is `[class, "version"]` (a selection) or a tagged change of the tables:
+  -- `["assign", class, table]`, `["set", class, key, id]`, `["del", class, key]`, `["active", class, id]`
   let ops ← (← arrF j "ops").toList.mapM fun e => do
     let a ← e.getArr?
-    let c ← (← idx a 0).getNat?
-    let v ← chars (← idx a 1)
-    pure (c, v)
+    match (← idx a 0) with
+    | .str "assign" => do
+      let c ← (← idx a 1).getNat?
+      let t ← decTable (← idx a 2)
+      pure (Op.assignTable c (t.getD []))
+    | .str "set" => do
+      let c ← (← idx a 1).getNat?
+      let k ← chars (← idx a 2)
+      let v ← (← idx a 3).getNat?
+      pure (Op.setItem c k v)
+    | .str "del" => do
+      let c ← (← idx a 1).getNat?
+      let k ← chars (← idx a 2)
+      pure (Op.delItem c k)
+    | .str "active" => do
+      let c ← (← idx a 1).getNat?
+      let v ← (← idx a 2).getNat?
+      pure (Op.assignActive c v)
+    | _ => do
+      let c ← (← idx a 0).getNat?
+      let v ← chars (← idx a 1)
+      pure (Op.select c v)
   let obsJ ← field j "obs"
   let cs0 : Classes := {
     parent := fun c => if c == 1 || c == 2 then some 0 else none
@@ -40,16 +61,16 @@ def handleC19 (j : Json) : R Json := do
   let emptyId : Option Nat := match j.getObjVal? "empty_id" with
     | .ok v => (v.getNat?).toOption
     | .error _ => none
-  let m := Spec.C19.contentTrace emptyId (Spec.C19.specTrace setVersion 3 watch cs0 ops)
+  let m := Spec.C19.contentTrace emptyId (Spec.C19.progTrace setVersion 3 watch cs0 ops)
   let enc (t : List (List (Option Nat))) : Json := Json.arr (t.map fun r => Json.arr (r.map jOptNat).toArray).toArray
-  let mholds := Spec.C19.holdsTraceContent emptyId cs0 3 watch ops m
+  let mholds := Spec.C19.holdsProg emptyId cs0 3 watch ops m
   if isExc obsJ then
     pure (Json.mkObj [("indomain", toJson true), ("agree", toJson false), ("holds", toJson false),
       ("model_holds", toJson mholds), ("model", enc m)])
   else
     let o ← (← obsJ.getArr?).toList.mapM fun r => do (← r.getArr?).toList.mapM optNat
     pure (Json.mkObj [("indomain", toJson true), ("agree", toJson (m == o)),
-      ("holds", toJson (Spec.C19.holdsTraceContent emptyId cs0 3 watch ops o)), ("model_holds", toJson mholds), ("model", enc m)])
+      ("holds", toJson (Spec.C19.holdsProg emptyId cs0 3 watch ops o)), ("model_holds", toJson mholds), ("model", enc m)])
 
 def decodeElems (j : Json) : R (List Cfi.Equality.Elem) := do
   (← j.getArr?).toList.mapM fun e => do
